@@ -169,7 +169,7 @@ func (s *routeSchema) newMuxSteps(rules []boundRule, nonEmpty bool, res *c16Resu
 
 func runC16(c *Ctx) {
 	r := c.Run
-	r.Rule("(a) every template with 1..2 (thorough 3) segments over literals {a,bb,a.b,a-b,v1}, variable forms incl. nested field paths, verbs; (b) every single-character edit (delete/insert/replace from \"{}=/*:.a\") of those, classified by the reference parser; (c) every body × response_body selector; (d) nested additional bindings; (e) conflicting bindings (same path: same verb, '*' vs verb, verb vs '*', re-declared implicit path after and before its owner is registered, across services and inside one service) — each on an empty mux and on a mux already serving another service, from service config and from annotations; distinct = (expectation class, outcome) × template shape")
+	r.Rule("(a) every template with 1..2 (thorough 3) segments over literals {a,bb,a.b,a-b,v1}, variable forms incl. nested field paths, verbs; (b) every single-character edit (delete/insert/replace from \"{}=/*:.a\") of those, classified by the reference parser; (c) every body × response_body selector; (d) nested additional bindings, and rule sets that fail on a later binding after valid bindings were placed at or below existing nodes; (e) conflicting bindings (same path: same verb, '*' vs verb, verb vs '*', re-declared implicit path after and before its owner is registered, across services and inside one service) — each on an empty mux and on a mux already serving another service, from service config and from annotations; distinct = (expectation class, outcome) × template shape")
 	r.Assume("grey zone (either outcome, but no panic and atomic): nested variables, literals/idents not starting with a letter, '**' not last, a field bound twice, variables on message/repeated/map fields, scalar body / non-message response_body selectors, '*'-kind vs verb conflicts")
 
 	schema, err := newRouteSchemaMulti("vt", 2)
@@ -422,6 +422,44 @@ func c16Selectors(c *Ctx, schema *routeSchema) {
 				r.Violation(report.Violation{Oracle: "rejection-damaged-routes", Key: "rejection-damaged-routes " + key, Case: cs, Note: bad})
 			}
 			r.Outcome("nested->rejected")
+		}
+		// a rule set that fails on a LATER binding after earlier, valid bindings were placed at or
+		// below nodes that already exist on the mux (S1's /zz/{s}): nothing of it may stay
+		for bi, bad := range []dyn.Rule{
+			{Kind: "delete", Path: "/zz/{s}", Add: []dyn.Rule{{Kind: "get", Path: "/nest/{zz}"}}},
+			{Kind: "get", Path: "/zz/{s}/more", Add: []dyn.Rule{{Kind: "put", Path: "/zz/{s}"}, {Kind: "get", Path: "/{s"}}},
+			{Kind: "post", Path: "/zz/{s}:vb", Body: "*", Add: []dyn.Rule{{Kind: "get", Path: "/zz/{t}/x", Body: "zz"}}},
+			{Kind: "get", Path: "/zz/{s=a/*}", Add: []dyn.Rule{{Kind: "get", Path: "/zz/{s}"}}}, // the additional binding collides with S1's own
+		} {
+			res, m, impl := c16Register(schema, bad, nil, nonEmpty)
+			r.Eval(1)
+			cs := c16Case{Kind: "nested", Rule: bad, NonEmpty: nonEmpty}
+			key := fmt.Sprintf("late-failure-after-valid-bindings #%d nonempty=%v", bi, nonEmpty)
+			switch {
+			case res.panicked:
+				r.Violation(report.Violation{Oracle: "register-panic", Key: "register-panic " + key, Case: cs, Note: res.err})
+			case res.accepted && (bi < 3 || nonEmpty):
+				r.Violation(report.Violation{Oracle: "invalid-template-accepted", Key: "invalid-rule-set-accepted " + key, Case: cs})
+			case res.accepted:
+				r.Outcome("late-failure->accepted-on-empty-mux")
+			default:
+				if res.before != res.after {
+					r.Violation(report.Violation{Oracle: "rejection-not-atomic", Key: "rejection-not-atomic " + key, Case: cs, Note: "the published routing state changed although the registration was rejected"})
+				}
+				if bad := c16ProbeIntact(schema, m, impl, nonEmpty, false); bad != "" {
+					r.Violation(report.Violation{Oracle: "rejection-damaged-routes", Key: "rejection-damaged-routes " + key, Case: cs, Note: bad})
+				}
+				// none of the valid early bindings of the rejected set may be live
+				for _, pr := range [][2]string{{"DELETE", "/zz/x"}, {"GET", "/zz/x/more"}, {"PUT", "/zz/x"}, {"POST", "/zz/x:vb"}, {"GET", "/zz/a/x"}} {
+					impl.reset()
+					sr := serveSimple(m, pr[0], pr[1], "")
+					r.Eval(1)
+					if sr.Panicked || (impl.n != 0 && impl.method == schema.methods[1]) {
+						r.Violation(report.Violation{Oracle: "rejection-damaged-routes", Key: "rejection-leaked-routes " + key + " " + pr[0] + " " + pr[1], Case: cs, Note: fmt.Sprintf("%s %s reached the method whose registration was rejected (status %d) %s", pr[0], pr[1], sr.Code, sr.Panic)})
+					}
+				}
+				r.Outcome("late-failure->rejected")
+			}
 		}
 		flat := dyn.Rule{Kind: "get", Path: "/nest/a", Add: []dyn.Rule{{Kind: "get", Path: "/nest/bb"}, {Kind: "post", Path: "/nest/{s}"}}}
 		res, m, impl = c16Register(schema, flat, nil, nonEmpty)
